@@ -73,7 +73,7 @@ def c01(tier):
                "actually returned by IterateSATGen (thorough: CMSGen, UniGen, IterateGen) are checked the same way. Deductive links "
                "proved for all inputs by pyvc.wp: repetition windows (map_block_trial_ranges), applicability (applies_to_trial); "
                "cardinality/adder encodings are C10/C12.")
-    run_wp(ck, ["map_block_trial_ranges", "applies_to_trial"], budget_ms(tier), prefix="C01.link.")
+    run_wp(ck, ["map_block_trial_ranges", "get_trial_numbers.window", "applies_to_trial"], budget_ms(tier), prefix="C01.link.")
     ds = SC.design_space(tier, seed())
     strats = ["IterateSATGen"] + (["CMSGen", "UniGen", "IterateGen"] if tier == "thorough" else [])
     res = SC.run(ds, ["cnf"] + strats, dict(n=400 if tier == "quick" else 2000, model_limit=1500 if tier == "quick" else 6000))
@@ -651,7 +651,7 @@ def c26(tier):
                "combinator, with and without preamble and with partial last repetitions; the compiled formula's model set (tier S) and both samplers "
                "are compared with the reference reading (per-repetition windows incl. preceding preamble trials vs. whole sequence). The mechanism is "
                "proved for all inputs by pyvc.wp: map_block_trial_ranges enumerates exactly the windows [s0 + j(L-p), min(s0 + j(L-p) + L, T)).")
-    run_wp(ck, ["map_block_trial_ranges"], budget_ms(tier), prefix="C26.link.")
+    run_wp(ck, ["map_block_trial_ranges", "get_trial_numbers.window"], budget_ms(tier), prefix="C26.link.")
     from spec import designs as DS
     ds = [d for d in DS.curated() if any(t in d["tags"] for t in ("scope-inner", "scope-outer", "repeat", "merge"))]
     ds += [d for d in DS.random_designs(seed(), 60 if tier == "quick" else 600) if "repeat" in d["tags"]]
